@@ -126,7 +126,7 @@ func c16Check(c *Ctx, s string) {
 		lit := "`" + strings.ReplaceAll(j, "`", "\\`") + "`"
 		c.c16Expect(lit, nil, s, "C16/json-literal", map[string]string{"syntax": "json-literal"})
 		// nested in a container
-		c.c16Expect("`[[" + strings.ReplaceAll(j, "`", "\\`") + "]]`[0][0]", nil, s, "C16/json-literal", map[string]string{"syntax": "json-literal-nested"})
+		c.c16Expect("`[["+strings.ReplaceAll(j, "`", "\\`")+"]]`[0][0]", nil, s, "C16/json-literal", map[string]string{"syntax": "json-literal-nested"})
 		// quoted identifier: same JSON string syntax (no backtick escaping)
 		doc := map[string]any{s: "hit", s + "x": "near-miss"}
 		c.c16Expect(j, doc, "hit", "C16/quoted-identifier", map[string]string{"syntax": "quoted-identifier"})
